@@ -14,7 +14,7 @@ func init() {
 			if tier == "quick" {
 				return 1200
 			}
-			return 40000
+			return 150000
 		},
 		Rule:        "case = one persisted tree (bf 2..64, 1..4000 entries, heights 0..8; every 15th case 5000-40000 entries) over a Load-counting store with NO cache, re-opened from its root; then ~40 point operations, each measured on its own: LoadMast <= 1 node, Clone/Cursor <= 1, Get (present and absent keys of every layer, extremes) <= height+1, Insert (new key at every layer, update) and Delete with unchanged height <= 2*(height+1), cursor Min/Max/Ceil/Forward/Backward <= 2*(height+1); half of the operations run on a fresh clone of the persisted version, the rest accumulate on one tree so that dirty in-memory paths mix with persisted subtrees; reads are counted as Persist.Load calls made during the call (there is no cache, so every node read is a Load; reading one node twice counts twice; the number of distinct names is reported too); non-trivial = height >= 2; distinct by (root, op, key)",
 		Assumptions: []string{"a node read = one Persist.Load call (no cache); by construction a correct Get loads each node of its search path once (<= h+1) and a correct Insert/Delete of a layer-L key loads the search path plus two spines below it (h+L+1 <= 2h+1), so the bounds of the statement leave room"},
